@@ -325,3 +325,46 @@ Example c157_each_edit_alone :
   get (arun three_way_hash 3 (c157_pre ++ [ARemove 2])) 5 1 = GSome (mkNode 1 1) /\
   split_get true (arun three_way_hash 3 c157_pre) (arun three_way_hash 3 c157_pre) 5 1 = PNode (mkNode 2 2).
 Proof. vm_compute. auto. Qed.
+
+(* (7) seeded change C15-9 — AddWithReplicas copies h.keys under the read lock, hashes and sorts the
+   copy with no lock held, and under the write lock publishes the prepared slice if len(h.keys) is
+   still the length it copied (else appends and sorts the current keys).  The insertion becomes
+   [snapshot] ... [publish]; the length test is an ABA check: a Remove of one node and an Add of
+   another with the same number of virtual nodes in between leave the length unchanged. *)
+Section Pinned9.
+Variable vh : Z -> Z -> Z.
+Variable R : Z.
+
+(* publish: ring slots on the current ring; keys from the stale snapshot if the count matches *)
+Definition p9_publish (x : node) (r : Z) (snapshot : list Z) (s : state) : state :=
+  let r' := if R <? r then R else r in
+  let hashes := map (vh (nrepr x)) (indices r') in
+  let s2 := mkState (keys s) (ring s)
+                    (if mem (nrepr x) (nodes s) then nodes s else nodes s ++ [nrepr x]) in
+  let s3 := fold_left (fun st i => mkState (keys st)
+                         (set_bucket (vh (nrepr x) i) (bucket (vh (nrepr x) i) (ring st) ++ [x]) (ring st)) (nodes st))
+                      (indices r') s2 in
+  mkState (if Nat.eqb (length (keys s)) (length snapshot) then sort (snapshot ++ hashes) else sort (keys s ++ hashes))
+          (ring s3) (nodes s3).
+End Pinned9.
+
+(* ring {keep = 1, b = 2}; Add(a = 3) takes its snapshot; Remove(b); Add(c = 4) (same count); publish *)
+Definition p9_hash (n i : Z) : Z := n * 1000 + i.
+Definition p9_before : state := arun p9_hash 3 [AInsert (mkNode 1 1) 3; AInsert (mkNode 2 2) 3].
+Definition p9_swapped : state := arun p9_hash 3 [AInsert (mkNode 1 1) 3; AInsert (mkNode 2 2) 3; ARemove 2; AInsert (mkNode 4 4) 3].
+Definition p9_after : state := p9_publish p9_hash 3 (mkNode 3 3) 3 (keys p9_before) p9_swapped.
+
+(* the ring is not empty, node 4 is a member with three ring slots — and a key hashing just below the
+   removed node's dangling hash gets NO node; node 4 is never the answer for its own hashes *)
+Theorem count_check_publish_refuted :
+  ring p9_after <> [] /\ In 4 (nodes p9_after) /\
+  get p9_after 2000 0 = GNone /\
+  get p9_after 4001 0 <> GSome (mkNode 4 4) /\
+  get (arun p9_hash 3 [AInsert (mkNode 1 1) 3; AInsert (mkNode 2 2) 3; ARemove 2; AInsert (mkNode 4 4) 3; AInsert (mkNode 3 3) 3]) 4001 0
+    = GSome (mkNode 4 4).
+Proof. vm_compute. repeat split; try discriminate; auto. Qed.
+
+(* without the swap the count differs or the content is the same: the variant agrees with the code as it is *)
+Example p9_no_interference :
+  p9_publish p9_hash 3 (mkNode 3 3) 3 (keys p9_before) p9_before = astep p9_hash 3 p9_before (AInsert (mkNode 3 3) 3).
+Proof. vm_compute. reflexivity. Qed.
